@@ -852,7 +852,12 @@ def run(chk: Check):
 
     model = chk.lean('XvcConfig', 'XvcConfig.Props', exe='configmodel',
                      extra_modules=['XvcConfig.Model', 'XvcConfig.Lemmas', 'XvcConfig.Gen.ConfigOrder', 'XvcConfig.Gen.ConfigDefaults'])
-    have_model = os.path.exists(model) and not any(b.get('stage') == 'lake build' for b in chk.proof['broken'])
+    have_model = os.path.exists(model)
+    if any(b.get('stage') == 'lake build' for b in chk.proof['broken']):
+        # a property theorem no longer checks on the regenerated tables; the driver does not depend on Props.lean:
+        # build it alone so that the correspondence still runs against the model of the *current* tables
+        rc, out = common.sh(['lake', 'build', 'configmodel'], cwd=os.path.join(common.LEAN_DIR, 'XvcConfig'), timeout=3000)
+        have_model = rc == 0 and os.path.exists(model)
     if not have_model:
         chk.notes.append('model driver did not build; only the implementation-side oracle can run')
     bindir = chk.build_harness(['config_harness'])
